@@ -588,6 +588,10 @@ def dmig_fn(n, cplx):
             for j in range(n):
                 re, im = z3.Real("re%d_%d" % (i, j)), z3.Real("im%d_%d" % (i, j))
                 eng.assume(z3.And(re >= -10, re <= 10, im >= -10, im <= 10))
+                # parts are exactly zero or at least 1/100 in magnitude: below np.allclose's absolute tolerance (1e-8) every
+                # matrix counts as symmetric and the replay cannot tell a dropped entry from rounding
+                for part in (re, im):
+                    eng.assume(z3.Or(part == 0, part >= z3.RealVal("0.01"), part <= z3.RealVal("-0.01")))
                 if not cplx:
                     eng.assume(im == 0)
                 M[i, j] = _FC(re, im) if cplx else _FR(re)
